@@ -85,11 +85,13 @@ GENERICS = [
     ("constparam", "<const N: usize>", "<N>", []),
     ("typeparam", "<T>", "<T>", [("Y", TY, "102")]),
     ("lt_ty_const_where", "<'a, T: 'a, const N: usize>", "<'a, T, N>", [("R", REF, "100"), ("Y", TY, "102")]),
+    # bounds written in a `where` clause: a trait bound and an outlives bound (the impl must repeat the clause - seed C12-where-clause-dropped)
+    ("where_clause", "<'a, T> where T: Copy + 'a", "<'a, T>", [("R", REF, "100"), ("Y", TY, "102")]),
 ]
 
 # concrete instantiation of the generic arguments inside the harness
 GEN_INST = {"plain": "", "lifetime": "<'static>", "constparam": "<3>", "typeparam": "<u8>",
-            "lt_ty_const_where": "<'static, u8, 3>"}
+            "lt_ty_const_where": "<'static, u8, 3>", "where_clause": "<'static, u8>"}
 
 
 def variant_decl(name, kind, disc):
@@ -176,7 +178,7 @@ def shapes(tier):
         for li, (lname, variants) in enumerate(layouts(ty, has_int)):
             for gi, (gname, gdecl, guse, gextra) in enumerate(GENERICS):
                 # generic headers only on a rotating subset, they are independent of the layout
-                if gname != "plain" and (li + ri) % 5 != gi:
+                if gname != "plain" and (li + ri) % 6 != gi:
                     continue
                 # fielded generic extras carry explicit discriminants (100, 102): integer repr needed
                 if gextra and not has_int:
